@@ -31,10 +31,18 @@ def make_case(rng, b, cartesian):
     from pymatgen.core import Lattice, Species
     from pymatgen.symmetry.groups import PointGroup
     from gemdat import Trajectory
-    if cartesian:
+    scale_vec, unit = [1, 1, 1], 16.0 / N
+    if cartesian and (b // 2) % 2 == 0:
         fam, orient = 'cubic16', 'int'
         G = [[256, 0, 0], [0, 256, 0], [0, 0, 256]]          # a = 16 A, integer lattice matrix: Cartesian = k * a / N = k / 2
         M = np.diag([16.0, 16.0, 16.0])
+    elif cartesian:
+        # a cell that is NOT cubic, still with integer Cartesian coordinates: a = (16, 24, 16) A, Cartesian = (2 k1, 3 k2, 2 k3) / 4.
+        # Point-group operations are Cartesian matrices: what the cell looks like has no bearing on the images.
+        fam, orient = 'tetra16x24', 'int'
+        G = [[256, 0, 0], [0, 576, 0], [0, 0, 256]]
+        M = np.diag([16.0, 24.0, 16.0])
+        scale_vec, unit = [2, 3, 2], 0.25
     else:
         fam = list(gen.FAMILIES)[b % len(gen.FAMILIES)]
         orient = ['chol', 'pmg', 'rot'][b % 3]
@@ -103,9 +111,9 @@ def make_case(rng, b, cartesian):
     pg = POINT_GROUPS[b % len(POINT_GROUPS)]
     ops = [np.rint(o.rotation_matrix).astype(int) for o in PointGroup(pg).symmetry_ops]
     A = rng.integers(-3, 4, size=(3, 3))
-    rec = {'b': b, 'G': G, 'N': N, 'R': R, 'cen': cen.tolist(), 'sat': sat.tolist(), 'cartesian': bool(cartesian), 'scale': 1,
+    rec = {'b': b, 'G': G, 'N': N, 'R': R, 'cen': cen.tolist(), 'sat': sat.tolist(), 'cartesian': bool(cartesian), 'scale': scale_vec,
            'ops': [o.tolist() for o in ops], 'A': A.tolist()}
-    return rec, traj, {'M': M, 'pg': pg, 'ops': ops, 'A': A, 'fam': fam, 'orient': orient, 'T': T, 'nc': nc, 'types': (ctype, stype), 'bystanders': by}
+    return rec, traj, {'M': M, 'pg': pg, 'ops': ops, 'A': A, 'fam': fam, 'orient': orient, 'T': T, 'nc': nc, 'types': (ctype, stype), 'bystanders': by, 'unit': unit, 'scale_vec': scale_vec}
 
 
 def deviant_acf(vectors):
@@ -202,7 +210,7 @@ def run(rep):
                 if not np.array_equal(np.asarray(o.vectors), vec):
                     bad.append(('vectors-changed-by-a-derived-operation',))
             if rec['cartesian']:
-                scale = 16.0 / N                       # Cartesian = grid * a / N
+                scale = x['unit']                      # Angstrom per integer Cartesian unit
                 sym = np.array(e['sym'])               # [T][nb*nops][3] in grid units, spec bond order
                 nops = len(x['ops'])
                 for mode in ('group', 'ops'):
@@ -226,14 +234,17 @@ def run(rep):
                 lens2 = np.linalg.norm(np.asarray(o.vectors), axis=-1) ** 2 * N * N
                 if np.abs(lens2 - el).max() > 1e-6 * max(1.0, el.max()):
                     bad.append(('bond-lengths-after-normalize',))
-                if np.abs(nv * 3 - k * 1.0).max() > 1e-9 or np.abs(np.linalg.norm(nv, axis=-1) - 1).max() > 1e-12:
+                vlen = np.linalg.norm(vec, axis=-1, keepdims=True)
+                if np.abs(nv * vlen - vec).max() > 1e-9 or np.abs(np.linalg.norm(nv, axis=-1) - 1).max() > 1e-12:
+                    bad.append(('normalize',))
+                if x['scale_vec'] == [1, 1, 1] and np.abs(nv * 3 - k * 1.0).max() > 1e-9:
                     bad.append(('normalize',))
                 acf = np.asarray(o.autocorrelation())          # [nb][T]
                 num = np.array(e['acf'], dtype=float)[order]   # [nb][T] in grid units^2
                 exact = (num / (T - np.arange(T))[None, :]) / (num[:, :1] / T)
                 if np.abs(acf - exact).max() > 1e-8:
                     # known deviation D15: the inverse FFT is taken with the default even length 2T-2 instead of 2T-1
-                    dev = deviant_acf(k[:, :, :] * scale)
+                    dev = deviant_acf(vec)
                     if np.abs(acf - dev).max() <= 1e-8:
                         kf = {q['id'] for q in core.known_findings('C18')}
                         if 'D15' in kf:
